@@ -230,6 +230,25 @@ theorem roundtrip_element (e : Elem) (hwf : e.wf = true) (hnul : e.nulFree = tru
   rw [cutNul_of_nulFree (elem_toStr_nul e hnul)]
   exact parseDoc_toStr e hwf
 
+/-- the serialiser loses nothing beyond what `shape` identifies, for ALL pairs of well-formed NUL-free elements: two elements with
+    the same document text (or the same element text) have the same shape -/
+theorem toStr_injective_up_to_shape (e w : Elem) (he : e.wf = true) (hen : e.nulFree = true)
+    (hw : w.wf = true) (hwn : w.nulFree = true) :
+    (docToStr e = docToStr w → e.shape = w.shape) ∧ (e.toStr = w.toStr → e.shape = w.shape) := by
+  constructor
+  · intro h
+    obtain ⟨e1, h1, s1⟩ := roundtrip e he hen
+    obtain ⟨e2, h2, s2⟩ := roundtrip w hw hwn
+    rw [h, h2] at h1
+    injection h1 with h1
+    rw [← s1, ← s2, h1]
+  · intro h
+    obtain ⟨e1, h1, s1⟩ := roundtrip_element e he hen
+    obtain ⟨e2, h2, s2⟩ := roundtrip_element w hw hwn
+    rw [h, h2] at h1
+    injection h1 with h1
+    rw [← s1, ← s2, h1]
+
 /-- The round trip inside a larger text: positioned behind the `<` of a serialised well-formed
     element that is followed by arbitrary bytes, `parseElement` returns the element and stops
     exactly behind its end (statement used by the induction; any sufficient fuel). -/
